@@ -560,6 +560,111 @@ def _sat_equal(S, s_, Sref):
         return False
 
 
+# ------------------------------------------------------------------------------------------------ scalar impls vs their meaning
+THOROUGH_CONFIGS = ["nostd"]
+
+LIBM = {"sinf": "sin", "cosf": "cos", "tanf": "tan", "asinf": "asin", "acosf": "acos", "atanf": "atan", "atan2f": "atan2", "atan2": "atan2",
+        "fabsf": "abs", "fabs": "abs", "sqrtf": "sqrt", "cbrtf": "cbrt", "powf": "powf", "pow": "powf", "expf": "exp", "logf": "ln", "log": "ln",
+        "roundf": "round", "floorf": "floor", "ceilf": "ceil", "hypotf": "hypot", "fmaf": "mul_add", "fma": "mul_add", "copysignf": "copysign",
+        "sincosf": "sin_cos", "sincos": "sin_cos",
+        # f64 spellings
+        "sin": "sin", "cos": "cos", "tan": "tan", "asin": "asin", "acos": "acos", "atan": "atan", "sqrt": "sqrt", "cbrt": "cbrt", "exp": "exp",
+        "round": "round", "floor": "floor", "ceil": "ceil", "hypot": "hypot", "copysign": "copysign"}
+
+
+def scalar_meaning(S, tr, m, x):
+    """What a num/angle trait method means on a real number (the reference the scalar impls, std or libm, must have)."""
+    R = S.R
+    t = tr.split("::")[-1]
+    one = {"sin": "sin", "cos": "cos", "tan": "tan", "asin": "asin", "acos": "acos", "atan": "atan", "abs": "abs", "sqrt": "sqrt", "cbrt": "cbrt",
+           "exp": "exp", "ln": "ln", "round": "round", "floor": "floor", "ceil": "ceil", "signum": "signum"}
+    if m in one and t in ("Trigonometry", "Abs", "Sqrt", "Cbrt", "Exp", "Ln", "Round", "Signum"):
+        return R.f(one[m], x[0])
+    if (t, m) == ("Trigonometry", "atan2"):
+        return R.f("atan2", x[0], x[1])
+    if (t, m) == ("Trigonometry", "sin_cos"):
+        return Tuple([R.f("sin", x[0]), R.f("cos", x[0])])
+    if (t, m) == ("Powf", "powf"):
+        return R.powf(x[0], x[1])
+    if (t, m) == ("Recip", "recip"):
+        return R.div(1, x[0])
+    if (t, m) == ("Hypot", "hypot"):
+        return R.sqrt(R.add(R.mul(x[0], x[0]), R.mul(x[1], x[1])))
+    if (t, m) == ("MulAdd", "mul_add"):
+        return R.add(R.mul(x[0], x[1]), x[2])
+    if (t, m) == ("MulSub", "mul_sub"):
+        return R.sub(R.mul(x[0], x[1]), x[2])
+    if (t, m) == ("MinMax", "min"):
+        return R.min(x[0], x[1])
+    if (t, m) == ("MinMax", "max"):
+        return R.max(x[0], x[1])
+    if (t, m) == ("Clamp", "clamp_min"):
+        return R.max(x[0], x[1])
+    if (t, m) == ("Clamp", "clamp_max"):
+        return R.min(x[0], x[1])
+    if (t, m) == ("Zero", "zero"):
+        return R.c(0)
+    if (t, m) == ("One", "one"):
+        return R.c(1)
+    if (t, m) in (("Real", "from_f64"), ("FromScalar", "from_scalar")):
+        return x[0]
+    if t == "PartialCmp":
+        op = {"lt": "<", "lt_eq": "<=", "eq": "==", "neq": "!=", "gt_eq": ">=", "gt": ">"}.get(m)
+        return S.ctx.cmp(op, x[0], x[1]) if op else None
+    if (t, m) == ("RealAngle", "degrees_to_radians"):
+        return R.f("deg2rad", x[0])
+    if (t, m) == ("RealAngle", "radians_to_degrees"):
+        return R.f("rad2deg", x[0])
+    if (t, m) == ("HalfRotation", "half_rotation"):
+        return R.c(180)
+    if (t, m) == ("FullRotation", "full_rotation"):
+        return R.c(360)
+    return None
+
+
+def libm_hook(spath, rpath, args, c, ev, fr):
+    m = re.match(r"^libm::(?:\w+::)*(\w+)$", spath)
+    if not m or m.group(1) not in LIBM:
+        return NotImplemented
+    op = LIBM[m.group(1)]
+    ctx = ev.ctx
+    a = [ev.deref(x) for x in args]
+    if op == "sin_cos":
+        return Tuple([ctx.sapp("sin", [a[0]]), ctx.sapp("cos", [a[0]])])
+    if op == "hypot":
+        return ctx.sapp("sqrt", [ev.binop("+", ev.binop("*", a[0], a[0]), ev.binop("*", a[1], a[1]))])
+    if op == "mul_add":
+        return ev.binop("+", ev.binop("*", a[0], a[1]), a[2])
+    if op == "copysign":
+        return ev.binop("*", ctx.sapp("abs", [a[0]]), ctx.sapp("signum", [a[1]]))
+    return ctx.sapp(op, a)
+
+
+def check_scalar_semantics(F, rep, label):
+    """f32/f64 implementations of the num/angle traits (std methods, or libm functions in the no_std configuration) mean what the trait says."""
+    groups = sibling_groups(F)
+    n = 0
+    for (tr, m), d in sorted(groups.items()):
+        for st in SCALARS:
+            for b in d.get(st, []):
+                S = Session(F)
+                S.ctx.expand_minmax = False
+                S.ctx.call_hook = libm_hook
+                nin = len(b.get("ins", []))
+                x = [S.ctx.sym("x%d" % i) for i in range(nin)]
+                exp = scalar_meaning(S, tr, m, x)
+                if exp is None:
+                    continue
+                key = "%s::%s[%s, %s]" % (tr.split("::")[-1], m, st, label)
+                try:
+                    v, _ = S.ev.eval_body(b, x)
+                    check_value(rep, "NUM-SEM", key, S, b, v, exp, sample="= %s" % alg._short(exp, 60))
+                    n += 1
+                except (Opaque, poly.TooBig, KeyError, IndexError) as ex:
+                    rep.fail("NUM-SEM", key, "uninterpretable: %s" % ex, F.loc(b))
+    return n
+
+
 def run(F, rep, tier="quick", extra=None, only=None):
     rep.trusted += ["rustc name resolution / type check", "operator table of rules/sym.py",
                     "one-lane abstraction: every primitive of the `wide` crate that palette calls (listed in evidence) acts lane by lane as the same-named "
@@ -570,4 +675,9 @@ def run(F, rep, tier="quick", extra=None, only=None):
     check_mask_reductions(F, rep)
     check_lanes(F, rep, ns=(1, 2, 3) if tier == "thorough" else (2,))
     check_arms(F, rep, tier)
+    n = check_scalar_semantics(F, rep, "std")
+    rep.floor("scalar trait methods with a stated meaning (std)", n, 60)
+    for tag, F2 in (extra or {}).items():
+        n2 = check_scalar_semantics(F2, rep, tag)
+        rep.floor("scalar trait methods with a stated meaning (%s)" % tag, n2, 60)
     return {"level": "other", "explanation": EXPLANATION}
